@@ -353,6 +353,15 @@ impl<'a> crate::fdl::FdlApplication for DpMaster<'a> {
                         }
                     }
                 }
+            } else {
+                // No peripheral at or after this index (for example no peripherals at all): the
+                // cycle is over.  Without this, the loop would spin forever.
+                self.state.cycle_state = CycleState::DataExchange(0);
+                self.state.last_events = DpEvents {
+                    cycle_completed: true,
+                    peripheral: peripheral_event,
+                };
+                return None;
             }
         }
     }
